@@ -31,6 +31,7 @@ def run_property(pid, tier, root=None, overlay=None, write=True, quiet=False, se
         mod = importlib.import_module(f'kverif.rules.{pid}')
         mod.check(repo, ctx, index, purity)
         ctx.analysed['call_sites'] = purity.resolved_calls
+        shared_templates(pid, repo, ctx)
     except AnalysisError as e:
         ctx.undecided('engine', '', '', 0, f'{type(e).__name__}: {e}')
     except Exception as e:                       # a traceback must never look like a violation
@@ -41,6 +42,53 @@ def run_property(pid, tier, root=None, overlay=None, write=True, quiet=False, se
         extra = {'checker_cmd': CHECKER_CMD.format(id=pid, tier=tier), 'trusted_base': TRUSTED}
     code = report.finish(ctx, level, t0, extra, write=write, quiet=quiet)
     return code, ctx
+
+
+_PROPS = None
+
+
+def anchor_files(pid):
+    """the files the property is anchored in (from /verif/properties.jsonl, which is given and fixed)"""
+    global _PROPS
+    if _PROPS is None:
+        _PROPS = {}
+        pth = os.path.join(os.path.dirname(os.path.dirname(os.path.abspath(__file__))), 'properties.jsonl')
+        with open(pth) as fh:
+            for line in fh:
+                if line.strip():
+                    d = json.loads(line)
+                    _PROPS[d['id']] = [f for f in d.get('anchors', {}).get('files', []) if f.endswith('.py')]
+    return _PROPS.get(pid, [])
+
+
+def shared_templates(pid, repo, ctx):
+    """rule templates applied to every property over the files it is anchored in"""
+    from .effects import Effects
+    from . import argrole
+    from .normalise import func_quals
+    eff = Effects(repo.modules)
+    rule = f'R{int(pid[1:])}.A'
+    n = 0
+    for path in anchor_files(pid):
+        if not repo.has_module(path) or '/tests/' in path:
+            continue
+        for q, f, cls in func_quals(repo.module(path).tree):
+            out, k = argrole.check_function(eff, f, cls)
+            n += k
+            for c, msg in out:
+                ctx.violation(rule, path, q, c, msg + ': the callee computes with a quantity in the wrong role', construct=ast_src(c))
+    if n:
+        ctx.ok(rule, '', '', 0, f'T-ARGROLE: {n} resolved call sites in the anchored files pass every named argument in the position of the parameter it is named after',
+               construct=f'{n} call sites')
+    ctx.analysed['call_sites'] = ctx.analysed.get('call_sites', 0) + n
+
+
+def ast_src(node):
+    import ast
+    try:
+        return ast.unparse(node)[:160]
+    except Exception:
+        return ''
 
 
 def main(argv=None):
